@@ -34,7 +34,9 @@ func runC01(p *Prog, r *Report) {
 			allow[a[0]+".(*"+a[1]+").Recv/X.Body[0:n]"] = why
 		}
 	}
-	e6dObligations(p, r, "C01.9/E6d", func(rel string) bool { return strings.HasPrefix(rel, "transport") || rel == "internal/core" || rel == "" }, allow)
+	e6dObligations(p, r, "C01.9/E6d", func(rel string) bool {
+		return strings.HasPrefix(rel, "transport") || rel == "internal/core" || rel == ""
+	}, allow)
 	r.Describe("C01.10/length-checks-exact", "no receive path demands more bytes than it consumes: a body of length zero (only protocol header words) is delivered by every pattern")
 	e6dNotOverStrict(p, r, "C01.10/length-checks-exact", notMacat)
 	r.Floor("C01.10/length-checks-exact", "e6d.min_length_checks", 10)
